@@ -316,6 +316,26 @@ def _do_writes(ws):
             st.write(text)
 
 
+def _file_action(act):
+    """Barrier files for real-process runs: ['wait', name, seconds] /
+    ['touch', name] under $VT_BARRIER."""
+    import time
+    d = os.environ.get('VT_BARRIER')
+    if not d:
+        return
+    p = os.path.join(d, act[1])
+    if act[0] == 'touch':
+        with open(p, 'w'):
+            pass
+        return
+    t0 = time.time()
+    while not os.path.exists(p):
+        if time.time() - t0 > act[2]:
+            emit('barrier_timeout', act[1])
+            raise AssertionError('barrier %s timed out' % act[1])
+        time.sleep(0.01)
+
+
 class VTCase(unittest.TestCase):
     _vt = None
 
@@ -377,6 +397,8 @@ class VTCase(unittest.TestCase):
     def _body(self):
         vt = self._vt
         emit('t', vt['n'], 'body')
+        for act in vt.get('acts') or ():
+            _file_action(act)
         _do_writes(vt.get('w'))
         for act in vt.get('th') or ():
             thread_action(act)
